@@ -87,6 +87,18 @@ META = {
                      "and judged by the oracle only"],
         compare=lambda cid, impl, model, tags: tags.get("fragment") == "0" or _strip_sup(impl) == _strip_sup(model),
     ),
+    "C06": dict(
+        rule="every delivery sequence over {prepare, commit, rollback} up to length 5 (thorough 7) for one branch on a "
+             "stateful in-memory database through the real fence.WithFence; for every sequence up to length 3 (4) and "
+             "every step a failure of the k-th statement of that step's local transaction (k = 1..6: BEGIN, fence "
+             "statements, business effect, COMMIT) followed by a clean retry, and a failing callback; random sequences "
+             "over 3 branches sharing the fence table; pairs of deliveries racing for one branch. Observed per "
+             "delivery: result, fence row, durable try/confirm/cancel effects. non-trivial = more than one delivery",
+        trusted=["memdb (in-memory MySQL-dialect driver: duplicate key 1062, row locks fail fast with 1205)"],
+        assumptions=["the caller commits the local transaction iff WithFence returns nil (as the fence driver and the "
+                     "samples do)"],
+        exhaustive={"quick": True, "thorough": True},
+    ),
 }
 
 def _member(impl, model):
